@@ -26,7 +26,7 @@ def gen_op(r):
     if k == 'take':
         return ['take', r.choice([0, 1, 2, 3, 20])]
     if k == 'distinct':
-        return ['distinct', r.choice([None, ['mod', 3]])]
+        return ['distinct', r.choice([None, None, ['mod', 3], ['pair', ['id'], ['const', enc('k')]], ['tofloat']])]
     if k == 'duc':
         return ['duc', r.choice([None, None, ['floordiv', 2]])]
     if k == 'lag':
@@ -49,7 +49,7 @@ def gen_seq(r, op):
         if with_none and r.random() < (0.6 if i < 2 else 0.2):
             xs.append(None)
         else:
-            xs.append(r.choice([0, 1, 1, 2, 2, 3, 5, 7]))
+            xs.append(r.choice([0, 1, 1, 2, 2, 3, 5, 7] if r.random() < 0.7 else [-1, -2, -1, 2 ** 61 - 1, 0, -3, 2 ** 61]))
     return [enc(x) for x in xs]
 
 
@@ -233,7 +233,7 @@ def coq_model_expr(case):
 
 
 CLAIM = {
-    'text': 'Theorems (Coq), timed (what is emitted while each item is consumed + at completion), for every item sequence and parameter: take/first/last, distinct (first occurrence per == class), lag(1) and lag(n) (item n back or first item), pad_start/pad_end/start_with (nothing for an empty key), map/filter; bridge theorem from the slot-level machine on any keyed trace to these list semantics. batch and distinct_until_changed are expansions over scan+filter+map whose closed-form chunk theorem is not proved here (partial; C20 proves the chunk shape on its own batch model); sort is plain-only (Python sorted is an oracle). Oracle: the list definitions in Python, mux per key and plain.',
+    'text': 'Theorems (Coq), timed (what is emitted while each item is consumed + at completion), for every item sequence and parameter: take/first/last, distinct (first occurrence per == class), lag(1) and lag(n) (item n back or first item), pad_start/pad_end/start_with (nothing for an empty key), map/filter; bridge theorem from the slot-level machine on any keyed trace to these list semantics. batch(n) and distinct_until_changed as rxsci defines them (scan with their accumulators, filter, map): chunks of exactly n items plus a final non-empty shorter chunk whose concatenation is the input; one item per run of == keys. sort is plain-only (Python sorted is an oracle). Oracle: the list definitions in Python, mux per key and plain.',
     'note': 'Trusted: Coq kernel+VM; hand-written model; Python sorted stability, == and hash modelled not verified.',
     'technique': 'Coq proof (forward-simulation refinement of a slot-level model by per-key local machines, list-level induction) + vm_compute correspondence against /repo + model-free oracle',
 }
